@@ -58,6 +58,9 @@ var c08Leaves = strings.Split(strings.TrimSpace(`
 .a.b
 .a[0]
 .a[]
+.a.5
+.3
+.a.0
 .c
 .[3]
 1
@@ -170,6 +173,12 @@ format_datetime("2006")
 . * {"c": 1}
 .a * .b
 .[] | select(. == 1)
+.[] as $i ireduce (null; $i.c // .)
+.[] as $i ireduce (0; . + $i)
+.. as $i ireduce ([]; . + [$i.a])
+.[] as $i ireduce ({}; .c)
+. as $i | $i.c
+.[] as $i | [$i.c, $i[3]]
 `), "\n")
 
 var c08Unary = strings.Split(strings.TrimSpace(`
